@@ -4,12 +4,17 @@ import (
 	"fmt"
 	"os"
 
+	"github.com/goplus/gogen/verif/internal/checks"
 	"github.com/goplus/gogen/verif/internal/drive"
 	"github.com/goplus/gogen/verif/internal/gen"
 	"github.com/goplus/gogen/verif/internal/ref"
 )
 
 func main() {
+	if len(os.Args) > 1 && os.Args[1] == "c11bisect" {
+		checks.C11Bisect()
+		return
+	}
 	if len(os.Args) > 1 && os.Args[1] == "c07" {
 		c07Print([]int{32, 2771, 4689})
 		return
